@@ -61,6 +61,7 @@ type wsConn struct {
 	requests         <-chan clientRequest
 	pongs            chan struct{}
 	stopPings        func()
+	stopPingsLk      sync.Mutex // stopPings is replaced by the redial goroutine
 	stop             <-chan struct{}
 	exiting          chan struct{}
 
@@ -742,6 +743,13 @@ func (c *wsConn) setupPings() func() {
 	}
 }
 
+func (c *wsConn) stopCurrentPings() {
+	c.stopPingsLk.Lock()
+	stop := c.stopPings
+	c.stopPingsLk.Unlock()
+	stop()
+}
+
 // returns true if reconnected
 func (c *wsConn) tryReconnect(ctx context.Context) bool {
 	if c.connFactory == nil { // server side
@@ -755,7 +763,7 @@ func (c *wsConn) tryReconnect(ctx context.Context) bool {
 	c.incoming = make(chan io.Reader) // listen again for responses
 	vhook("reconn.spawn", c)
 	go func() {
-		c.stopPings()
+		c.stopCurrentPings()
 
 		attempts := 0
 		var conn *websocket.Conn
@@ -789,7 +797,10 @@ func (c *wsConn) tryReconnect(ctx context.Context) bool {
 		vhook("rc.swap", c)
 		c.errLk.Unlock()
 
-		c.stopPings = c.setupPings()
+		stop := c.setupPings()
+		c.stopPingsLk.Lock()
+		c.stopPings = stop
+		c.stopPingsLk.Unlock()
 
 		// a new connection counts as activity: the connection loop re-arms its idle
 		// timer, which has been measuring the silence of the connection that was lost
@@ -897,7 +908,9 @@ func (c *wsConn) handleWsConn(ctx context.Context) {
 	// setup pings
 
 	c.stopPings = c.setupPings()
-	defer c.stopPings()
+	// the keepalive of the connection that is current at exit: a redial replaces
+	// stopPings together with the connection
+	defer c.stopCurrentPings()
 
 	var timeoutTimer *time.Timer
 	if c.timeout != 0 {
